@@ -21,6 +21,27 @@ class Fault(Exception):
 # ----------------------------------------------------------------------------
 # logging containers
 # ----------------------------------------------------------------------------
+RAN = []      # ids of the tasks whose run() was entered during the current API call, in order
+
+
+def _log_runs(cls):
+    orig = cls.run
+
+    def run(self, *a, **k):
+        try:
+            RAN.append(json.dumps(id_json(self.taskid)))
+        except Exception:
+            RAN.append(None)
+        return orig(self, *a, **k)
+    run._xdverif_wrapped = True
+    if not getattr(orig, "_xdverif_wrapped", False):
+        cls.run = run
+
+
+for _cls in (xt.ExprTask, xt.FunctionTask, xt.LinearKnob):
+    _log_runs(_cls)
+
+
 class Hub:
     """shared write log + fault countdown"""
 
@@ -286,11 +307,33 @@ class ImplMgr:
         except Exception:
             return None
 
+    def executed_order(self, listed, ran):
+        """the schedule the implementation actually used: the tasks in the order in which their run() was entered during
+        the call (observed through the wrapped `run` methods of the three task classes), followed by the listed tasks
+        that did not run (a fault stopped the update), in the listed order.  A second query of find_taskids need not
+        iterate its start set in the order the call itself did (a start set built another way has another iteration
+        order) — what ran is the fact."""
+        if not listed:
+            return listed
+        try:
+            keys = [json.dumps(t) for t in listed]
+            if any(r is None for r in ran):
+                return listed
+            seen, out = set(), []
+            for r in ran:
+                if r in keys and r not in seen:
+                    seen.add(r)
+                    out.append(json.loads(r))
+            return out + [t for t, k in zip(listed, keys) if k not in seen]
+        except Exception:
+            return listed
+
     # -- operations ----------------------------------------------------------
     def apply(self, op):
         """execute one protocol operation; returns the line to hand to the model (op + impl)"""
         hub = self.hub
         hub.trace = []
+        del RAN[:]
         exc = "ok"
         extra = {}
         kind = op["op"]
@@ -416,11 +459,12 @@ class ImplMgr:
             extra["fault_fired"] = True
             hub.last_fault = None
         hub.fault_in = None if kind != "fault" else hub.fault_in
+        ran = list(RAN)
         line = dict(op)
         impl = self.observe(exc)
         impl.update(extra)
         if kind in ("set", "setexpr", "iop"):
-            line["order"] = self.order_after(op["path"])
+            line["order"] = self.executed_order(self.order_after(op["path"]), ran)
         if kind == "genfun":
             line["order"] = extra.get("listed")
         line["impl"] = impl
